@@ -79,6 +79,10 @@ def program(body, wrapper, prelude):
 
 
 BENIGN = [
+    # first of all (state left behind by the aborted invocation is most
+    # likely to hit the very next one): a module that catches an ordinary
+    # error of its own
+    ("{{#invoke:work|catch}}", "falsefalseH"),
     ("{{#invoke:echo|f|x}}", "<x>"),
     ("{{#invoke:echo|f| y }}", "< y >"),
     ("{{#invoke:echo|dump|a|k=v}}", "{n1:1=1:a,s1:k=1:v}"),
